@@ -787,6 +787,7 @@ impl Monitor for Prec {
             let fam = if cfg.kind.is_sinc() { "sinc" } else if cfg.kind.is_fast() { "fast" } else { "fft" };
             st.max(&format!("worst_gain_error_eps32.{}", fam), gerr);
             let gain_bound = if cfg.kind.is_fft() { k_bound / 4.0 } else { 32.0 + cfg.flen() as f64 / 8.0 };
+            st.max(&format!("worst_gain_error_over_bound.{}", fam), gerr / gain_bound);
             let peak = all64.iter().fold(1.0f64, |m, v| m.max(v.abs()));
             let shape = all32.iter().zip(all64.iter()).fold(0.0f64, |m, (x, y)| m.max((x - g * y).abs())) / (eps * peak);
             st.max("worst_shape_residual_eps32", shape);
